@@ -358,6 +358,18 @@ def _templated_keys(value: JSON, options: Options, explain: bool) -> Set[str]:
     return set()
 
 
+def _shadowing_keys(preset: Options, options: Options, prefix: str = "") -> Set[str]:
+    """Keys of the options whose non-section value replaces a whole pre-set section."""
+    keys: Set[str] = set()
+    for name, value in preset.items():
+        if isinstance(value, Mapping) and name in options:
+            if isinstance(options[name], Mapping):
+                keys |= _shadowing_keys(value, options[name], f"{prefix}{name}.")
+            else:
+                keys.add(f"{prefix}{name}")
+    return keys
+
+
 class WithOptions(Evaluatable[B]):
     """A class that wraps an Evaluatable object and provides default options.
 
@@ -418,11 +430,14 @@ class WithOptions(Evaluatable[B]):
 
     def keys(self, options: Options) -> Set[str]:
         """Return the keys required by the wrapped Evaluatable object."""
-        return {
+        keys = {
             key
             for key in self.evaluatable.keys(self._options(options))
             if not self._supplies(key, options)
         }
+        if not self.force:
+            keys |= _shadowing_keys(self.options, options)
+        return keys
 
     def explain(self, options: Optional[Options] = None) -> Set[str]:
         """Return the explanation for the wrapped Evaluatable object."""
